@@ -5,16 +5,16 @@ Frontend operations preserve the ordering invariant `PI` (for every cut-off, eve
 namespace Backend.PB
 open Backend
 
-variable {ex : Option Nat} {fl : Nat} {T : Nat → Prop} {C : List Nat} {s : BSt}
+variable {c : Cfg} {ex : Option Nat} {fl : Nat} {T : Nat → Prop} {C : List Nat} {s : BSt}
 
-theorem PI.tick (h : PI ex fl T C s) (dt : Nat) : PI ex fl T C { s with now := s.now + dt } :=
+theorem PI.tick (h : PI c ex fl T C s) (dt : Nat) : PI c ex fl T C { s with now := s.now + dt } :=
   { h with
     floorNow := Nat.le_trans h.floorNow (Nat.sub_le_sub_right (Nat.le_add_right _ _) _)
     leNow := fun i st hst => Nat.le_trans (h.leNow i st hst) (Nat.le_add_right _ _)
     pend := fun a x st hx hex hp =>
       let ⟨h1, h2, h3⟩ := h.pend a x st hx hex hp
       ⟨Nat.le_trans h1 (Nat.le_add_right _ _), h2, h3⟩
-    ord := fun hp => (h.ord hp).cast rfl (fun _ => rfl) rfl }
+    ord := fun hg0 hr0 hp => (h.ord hg0 hr0 hp).cast rfl (fun _ => rfl) rfl }
 
 theorem actor_setActor_cases {s : BSt} {a b : Nat} {g : Actor → Actor} {x' : Actor}
     (hid : ∀ x, (g x).id = x.id) (hal : ∀ x, (g x).alive = x.alive)
@@ -29,12 +29,12 @@ theorem actor_setActor_cases {s : BSt} {a b : Nat} {g : Actor → Actor} {x' : A
   · rw [actor_setActor_ne s g hid hb] at h; left; exact ⟨hb, h⟩
 
 /-- an actor update that keeps identity, liveness and context; `hp`: the new parked statement (if any) is fine -/
-theorem PI.setActor {ex' : Option Nat} (h : PI ex fl T C s) (a : Nat) (g : Actor → Actor)
+theorem PI.setActor {ex' : Option Nat} (h : PI c ex fl T C s) (a : Nat) (g : Actor → Actor)
     (hid : ∀ x, (g x).id = x.id) (hal : ∀ x, (g x).alive = x.alive) (hctx : ∀ x, (g x).ctx = x.ctx)
     (hex : ∀ b, b ≠ a → some b ≠ ex' → some b ≠ ex)
     (hp : ∀ x st, s.actor a = some x → some a ≠ ex' → isPendOf (g x).pend st →
           st.ts ≤ s.now ∧ 0 < st.size ∧ ∀ i, x.ctx = some i → ∀ r ∈ chain (s.th i), r.ts ≤ st.ts) :
-    PI ex' fl T C (s.setActor a g) :=
+    PI c ex' fl T C (s.setActor a g) :=
   { h with
     ctxLt := fun b x' i hx hi => by
       rcases actor_setActor_cases hid hal hx with ⟨_, h1⟩ | ⟨rfl, x, h1, rfl⟩
@@ -56,28 +56,28 @@ theorem PI.setActor {ex' : Option Nat} (h : PI ex fl T C s) (a : Nat) (g : Actor
       · exact h.pend b x' st h1 (hex b hne hb) hpd
       · obtain ⟨p1, p2, p3⟩ := hp x st h1 hb hpd
         exact ⟨p1, p2, fun i hi => p3 i (by rw [hctx] at hi; exact hi)⟩
-    ord := fun hp => (h.ord hp).cast rfl (fun _ => rfl) rfl }
+    ord := fun hg0 hr0 hp => (h.ord hg0 hr0 hp).cast rfl (fun _ => rfl) rfl }
 
 /-- updates that do not touch the parked statement -/
-theorem PI.setActor_keep (h : PI ex fl T C s) (a : Nat) (g : Actor → Actor)
+theorem PI.setActor_keep (h : PI c ex fl T C s) (a : Nat) (g : Actor → Actor)
     (hid : ∀ x, (g x).id = x.id) (hal : ∀ x, (g x).alive = x.alive) (hctx : ∀ x, (g x).ctx = x.ctx)
-    (hpe : ∀ x, (g x).pend = x.pend) : PI ex fl T C (s.setActor a g) :=
+    (hpe : ∀ x, (g x).pend = x.pend) : PI c ex fl T C (s.setActor a g) :=
   h.setActor a g hid hal hctx (fun _ _ hb => hb) (fun x st hx hb hpd => h.pend a x st hx hb (by rw [hpe] at hpd; exact hpd))
 
 /-- updates that leave the actor with no parked statement -/
-theorem PI.setActor_clear {a : Nat} (h : PI (some a) fl T C s) (g : Actor → Actor)
+theorem PI.setActor_clear {a : Nat} (h : PI c (some a) fl T C s) (g : Actor → Actor)
     (hid : ∀ x, (g x).id = x.id) (hal : ∀ x, (g x).alive = x.alive) (hctx : ∀ x, (g x).ctx = x.ctx)
-    (hpe : ∀ x st, ¬ isPendOf (g x).pend st) : PI none fl T C (s.setActor a g) :=
+    (hpe : ∀ x st, ¬ isPendOf (g x).pend st) : PI c none fl T C (s.setActor a g) :=
   h.setActor a g hid hal hctx (fun b hne _ hh => hne (Option.some.inj hh)) (fun x st _ _ hpd => absurd hpd (hpe x st))
 
-theorem PI.setActor_clear' {a : Nat} (h : PI none fl T C s) (g : Actor → Actor)
+theorem PI.setActor_clear' {a : Nat} (h : PI c none fl T C s) (g : Actor → Actor)
     (hid : ∀ x, (g x).id = x.id) (hal : ∀ x, (g x).alive = x.alive) (hctx : ∀ x, (g x).ctx = x.ctx)
-    (hpe : ∀ x st, ¬ isPendOf (g x).pend st) : PI none fl T C (s.setActor a g) :=
+    (hpe : ∀ x st, ¬ isPendOf (g x).pend st) : PI c none fl T C (s.setActor a g) :=
   (h.unex (a := a)).setActor_clear g hid hal hctx hpe
 
 /-- the actor's thread ends: it disappears from view -/
-theorem PI.killActor (h : PI ex fl T C s) (a : Nat) (g : Actor → Actor)
-    (hid : ∀ x, (g x).id = x.id) (hal : ∀ x, (g x).alive = false) : PI ex fl T C (s.setActor a g) := by
+theorem PI.killActor (h : PI c ex fl T C s) (a : Nat) (g : Actor → Actor)
+    (hid : ∀ x, (g x).id = x.id) (hal : ∀ x, (g x).alive = false) : PI c ex fl T C (s.setActor a g) := by
   have key : ∀ b x', (s.setActor a g).actor b = some x' → b ≠ a ∧ s.actor b = some x' := by
     intro b x' hx
     by_cases hb : b = a
@@ -88,10 +88,10 @@ theorem PI.killActor (h : PI ex fl T C s) (a : Nat) (g : Actor → Actor)
     ctxReg := fun b x' i hx hi => h.ctxReg b x' i (key b x' hx).2 hi
     ctxInj := fun b c x' y' i hx hy hxi hyi => h.ctxInj b c x' y' i (key b x' hx).2 (key c y' hy).2 hxi hyi
     pend := fun b x' st hx hb hpd => h.pend b x' st (key b x' hx).2 hb hpd
-    ord := fun hp => (h.ord hp).cast rfl (fun _ => rfl) rfl }
+    ord := fun hg0 hr0 hp => (h.ord hg0 hr0 hp).cast rfl (fun _ => rfl) rfl }
 
-theorem PI.addActor (h : PI ex fl T C s) (a : Nat) (ha : s.actor a = none) :
-    PI ex fl T C { s with actors := s.actors ++ [{ id := a }] } := by
+theorem PI.addActor (h : PI c ex fl T C s) (a : Nat) (ha : s.actor a = none) :
+    PI c ex fl T C { s with actors := s.actors ++ [{ id := a }] } := by
   have key : ∀ b x', ({ s with actors := s.actors ++ [{ id := a }] } : BSt).actor b = some x' →
       s.actor b = some x' ∨ (x'.ctx = none ∧ x'.pend = .none) := by
     intro b x' hx
@@ -118,24 +118,24 @@ theorem PI.addActor (h : PI ex fl T C s) (a : Nat) (ha : s.actor a = none) :
       rcases key b x' hx with h1 | ⟨_, h1⟩
       · exact h.pend b x' st h1 hb hpd
       · rw [h1] at hpd; obtain ⟨c, hc | hc⟩ := hpd <;> cases hc
-    ord := fun hp => (h.ord hp).cast rfl (fun _ => rfl) rfl }
+    ord := fun hg0 hr0 hp => (h.ord hg0 hr0 hp).cast rfl (fun _ => rfl) rfl }
 
 end Backend.PB
 
 namespace Backend.PB
 open Backend
 
-variable {ex : Option Nat} {fl : Nat} {T : Nat → Prop} {C : List Nat} {s : BSt}
+variable {c : Cfg} {ex : Option Nat} {fl : Nat} {T : Nat → Prop} {C : List Nat} {s : BSt}
 
 theorem chain_mkTh (c : Cfg) (a : Nat) : chain (mkTh c a) = [] := rfl
 
-theorem qc_mkTh (c : Cfg) (a : Nat) : QC (mkTh c a) := ⟨rfl, rfl, fun _ h => by cases h⟩
+theorem qc_mkTh (c : Cfg) (a : Nat) : QC (mkTh c a) := ⟨rfl, rfl, (fun _ h => by cases h), ⟨0, Nat.zero_le _, rfl⟩⟩
 
-theorem qc_default : QC (default : Th) := ⟨rfl, rfl, fun _ h => by cases h⟩
+theorem qc_default : QC (default : Th) := ⟨rfl, rfl, (fun _ h => by cases h), ⟨0, Nat.zero_le _, rfl⟩⟩
 
 /-- `get_local_thread_context`: the context of `a` exists afterwards, is `a`'s alone, and is empty if new -/
-theorem PI.ensureCtx (h : PI ex fl T C s) (a : Nat) (x : Actor) (hx : s.actor a = some x) :
-    PI ex fl T C (ensureCtx s a).1 ∧ (ensureCtx s a).1.now = s.now ∧ (ensureCtx s a).1.cfg = s.cfg ∧
+theorem PI.ensureCtx (h : PI c ex fl T C s) (a : Nat) (x : Actor) (hx : s.actor a = some x) :
+    PI c ex fl T C (ensureCtx s a).1 ∧ (ensureCtx s a).1.now = s.now ∧ (ensureCtx s a).1.cfg = s.cfg ∧
     ∃ x', (ensureCtx s a).1.actor a = some x' ∧ x'.ctx = some (ensureCtx s a).2 ∧ x'.pend = x.pend ∧
       ∀ r ∈ chain ((ensureCtx s a).1.th (ensureCtx s a).2), ∃ i, x.ctx = some i ∧ r ∈ chain (s.th i) := by
   unfold Backend.ensureCtx
@@ -168,8 +168,7 @@ theorem PI.ensureCtx (h : PI ex fl T C s) (a : Nat) (x : Actor) (hx : s.actor a 
       · rw [if_neg hj] at this; exact this hst
     refine ⟨?_, rfl, rfl, g x, ?_, rfl, rfl, ?_⟩
     · exact {
-        grace := h.grace
-        ras := h.ras
+        cfgEq := h.cfgEq
         hdr := h.hdr
         floorNow := h.floorNow
         cacheEq := h.cacheEq
@@ -230,8 +229,8 @@ theorem PI.ensureCtx (h : PI ex fl T C s) (a : Nat) (x : Actor) (hx : s.actor a 
             refine ⟨p1, p2, fun i hi => ?_⟩
             cases hi
             rw [hth, if_pos rfl, chain_mkTh]; intro r hr; cases hr
-        ord := fun hp => by
-          have o := h.ord (hprem hp)
+        ord := fun hg0 hr0 hp => by
+          have o := h.ord hg0 hr0 (hprem hp)
           exact {
             popSorted := o.popSorted
             above := fun p hpp i _ => by
@@ -267,13 +266,13 @@ theorem PI.ensureCtx (h : PI ex fl T C s) (a : Nat) (x : Actor) (hx : s.actor a 
       rw [this, chain_mkTh] at hr; cases hr
 
 /-- a record is committed to the queue of `a`'s context -/
-theorem PI.enq {a : Nat} (h : PI (some a) fl T C s) (x : Actor) (hx : s.actor a = some x) (ci : Nat)
+theorem PI.enq {a : Nat} (h : PI c (some a) fl T C s) (x : Actor) (hx : s.actor a = some x) (ci : Nat)
     (hctx : x.ctx = some ci) (st : Stmt) (hts : st.ts ≤ s.now) (hsz : 0 < st.size) (henq : st.enqAt = s.now)
     (hfit : ∀ r ∈ chain (s.th ci), r.ts ≤ st.ts) (f : Th → Th)
     (hf : ∀ t, t = s.th ci → (f t).buf = t.buf ∧ (f t).qStmts = t.qStmts ++ [st] ∧ (f t).accepted = t.accepted ++ [st] ∧
       (f t).q.wpos = t.q.wpos + st.size ∧ (f t).q.wHist.headD 0 = t.q.wpos + st.size ∧ (f t).q.rpos = t.q.rpos ∧
-      (f t).valid = t.valid) :
-    PI (some a) fl T C (s.setTh ci f) := by
+      (f t).valid = t.valid ∧ (f t).q.wcache = t.q.wcache) :
+    PI c (some a) fl T C (s.setTh ci f) := by
   have hf := hf _ rfl
   have hchain : chain (f (s.th ci)) = chain (s.th ci) ++ [st] := by
     simp only [chain, hf.1, hf.2.1, List.append_assoc]
@@ -311,13 +310,16 @@ theorem PI.enq {a : Nat} (h : PI (some a) fl T C s) (x : Actor) (hx : s.actor a 
       · rw [h1]; exact h.qc j
       · rw [h1]
         have q0 := h.qc j
-        obtain ⟨_, f2, _, f4, f5, f6, _⟩ := hf
-        refine ⟨by rw [f4, f5], ?_, ?_⟩
+        obtain ⟨_, f2, _, f4, f5, f6, _, f8⟩ := hf
+        refine ⟨by rw [f4, f5], ?_, ?_, ?_⟩
         · rw [f5, f6, f2, List.map_append, List.sum_append, q0.wpos, q0.sum]; simp; omega
         · rw [f2]; intro r hr
           rcases List.mem_append.mp hr with h2 | h2
           · exact q0.pos r h2
           · rw [List.mem_singleton.mp h2]; exact hsz
+        · obtain ⟨k, hk, hw⟩ := q0.wc
+          refine ⟨k, by rw [f2, List.length_append]; omega, ?_⟩
+          rw [f8, f6, f2, List.take_append_of_le_length hk]; exact hw
     reg := fun j => by
       rcases hcases j with h1 | ⟨rfl, h1⟩
       · rw [h1]; exact h.reg j
@@ -331,7 +333,7 @@ theorem PI.enq {a : Nat} (h : PI (some a) fl T C s) (x : Actor) (hx : s.actor a 
       refine ⟨r1, ?_⟩
       rcases hcases i with h1 | ⟨rfl, h1⟩
       · rw [h1]; exact r2
-      · rw [h1, hf.2.2.2.2.2.2]; exact r2
+      · rw [h1, hf.2.2.2.2.2.2.1]; exact r2
     ctxLt := fun b y i hy hi => by rw [length_setTh]; exact h.ctxLt b y i hy hi
     pend := fun b y r hy hb hpd => by
       obtain ⟨p1, p2, p3⟩ := h.pend b y r hy hb hpd
@@ -339,9 +341,9 @@ theorem PI.enq {a : Nat} (h : PI (some a) fl T C s) (x : Actor) (hx : s.actor a 
       rcases hcases i with h1 | ⟨rfl, _⟩
       · rw [h1]; exact p3 i hi
       · exfalso; exact hb (by rw [h.ctxInj b a y x i hy hx hi hctx])
-    ord := fun hp => by
+    ord := fun hg0 hr0 hp => by
       obtain ⟨hp0, hgood⟩ := hprem hp
-      have o := h.ord hp0
+      have o := h.ord hg0 hr0 hp0
       have hfl : fl ≤ st.ts := by have := h.floorNow; omega
       exact {
         popSorted := o.popSorted
@@ -365,10 +367,10 @@ theorem PI.enq {a : Nat} (h : PI (some a) fl T C s) (x : Actor) (hx : s.actor a 
             · exact o.late j hj hT hb r h2
             · rw [List.mem_singleton.mp h2]; exact hfl } }
 
-theorem PI.tryEnq {a : Nat} (h : PI (some a) fl T C s) (x : Actor) (hx : s.actor a = some x) (ci : Nat)
+theorem PI.tryEnq {a : Nat} (h : PI c (some a) fl T C s) (x : Actor) (hx : s.actor a = some x) (ci : Nat)
     (hctx : x.ctx = some ci) (st : Stmt) (hts : st.ts ≤ s.now) (hsz : 0 < st.size)
     (hfit : ∀ r ∈ chain (s.th ci), r.ts ≤ st.ts) :
-    PI (some a) fl T C (tryEnq s ci st).1 ∧ (tryEnq s ci st).1.now = s.now ∧ (tryEnq s ci st).1.cfg = s.cfg ∧
+    PI c (some a) fl T C (tryEnq s ci st).1 ∧ (tryEnq s ci st).1.now = s.now ∧ (tryEnq s ci st).1.cfg = s.cfg ∧
     (∀ b, (tryEnq s ci st).1.actor b = s.actor b) ∧
     ((tryEnq s ci st).2 = false → ∀ i, chain ((tryEnq s ci st).1.th i) = chain (s.th i)) := by
   unfold Backend.tryEnq
@@ -379,12 +381,13 @@ theorem PI.tryEnq {a : Nat} (h : PI (some a) fl T C s) (x : Actor) (hx : s.actor
     apply h.enq x hx ci hctx { st with enqAt := s.now } hts hsz rfl hfit
     intro t ht
     have f1 := qFinishCommit_fields s.cfg (qPrepareWrite s.cfg (s.th ci).q st.size).1 st.size
-    refine ⟨rfl, rfl, rfl, ?_, ?_, ?_, rfl⟩
+    refine ⟨rfl, rfl, rfl, ?_, ?_, ?_, rfl, ?_⟩
     · show (qFinishCommit _ _ _).wpos = _; rw [f1.1, f2.1, ht]
     · show (qFinishCommit _ _ _).wHist.headD 0 = _; rw [f1.2.1, f2.1, ht]; rfl
-    · show (qFinishCommit _ _ _).rpos = _; rw [f1.2.2, f2.2.2, ht]
+    · show (qFinishCommit _ _ _).rpos = _; rw [f1.2.2.1, f2.2.2.1, ht]
+    · show (qFinishCommit _ _ _).wcache = _; rw [f1.2.2.2, f2.2.2.2, ht]
   · have hf : ThEq (s.th ci) ((fun t : Th => { t with q := (qPrepareWrite s.cfg (s.th ci).q st.size).1 }) (s.th ci)) :=
-      ThEq.ofQ _ _ f2
+      ThEq.ofQ' _ _ f2
     exact ⟨h.setTh_frame ci _ hf, rfl, rfl, fun _ => rfl, fun _ i => chain_setTh_frame s ci _ hf i⟩
 
 theorem not_pend_none (st : Stmt) : ¬ isPendOf Pend.none st := by
@@ -392,8 +395,8 @@ theorem not_pend_none (st : Stmt) : ¬ isPendOf Pend.none st := by
 theorem not_pend_flag (f : Nat) (st : Stmt) : ¬ isPendOf (Pend.flag f) st := by
   rintro ⟨c, h | h⟩ <;> cases h
 
-theorem PI.afterEnq (h : PI none fl T C s) (a : Nat) (st : Stmt) (cont : Nat) :
-    PI none fl T C (afterEnq s a st cont).1 := by
+theorem PI.afterEnq (h : PI c none fl T C s) (a : Nat) (st : Stmt) (cont : Nat) :
+    PI c none fl T C (afterEnq s a st cont).1 := by
   unfold Backend.afterEnq
   split
   · refine h.setActor_clear' _ (fun _ => rfl) (fun _ => rfl) (fun _ => rfl) ?_
@@ -406,10 +409,10 @@ theorem PI.afterEnq (h : PI none fl T C s) (a : Nat) (st : Stmt) (cont : Nat) :
     · intro _ st; exact not_pend_flag _ st
   · exact h
 
-theorem PI.enqFlow (h : PI none fl T C s) (a : Nat) (x : Actor) (hx : s.actor a = some x) (st : Stmt)
+theorem PI.enqFlow (h : PI c none fl T C s) (a : Nat) (x : Actor) (hx : s.actor a = some x) (st : Stmt)
     (cont : Nat) (first initial : Bool) (hts : st.ts ≤ s.now) (hsz : 0 < st.size)
     (hfit : ∀ i, x.ctx = some i → ∀ r ∈ chain (s.th i), r.ts ≤ st.ts) :
-    PI none fl T C (enqFlow s a st cont first initial).1 := by
+    PI c none fl T C (enqFlow s a st cont first initial).1 := by
   obtain ⟨h1, hnow1, hcfg1, x1, hx1, hc1, _, hch1⟩ := h.ensureCtx a x hx
   rcases he : Backend.ensureCtx s a with ⟨s1, ci⟩
   rw [he] at h1 hnow1 hcfg1 hx1 hc1 hch1
@@ -423,8 +426,8 @@ theorem PI.enqFlow (h : PI none fl T C s) (a : Nat) (x : Actor) (hx : s.actor a 
   simp only at h2 hnow2 hcfg2 hact2 hfail2
   unfold Backend.enqFlow
   simp only [he, ht]
-  have hbump : ∀ (y : BSt) (g : Th → Th), PI (some a) fl T C y → (∀ t, ThEq t (g t)) →
-      PI (some a) fl T C (if isLogKind st.kind = true then y.setTh ci g else y) := by
+  have hbump : ∀ (y : BSt) (g : Th → Th), PI c (some a) fl T C y → (∀ t, ThEq t (g t)) →
+      PI c (some a) fl T C (if isLogKind st.kind = true then y.setTh ci g else y) := by
     intro y g hy hg; split
     · exact hy.setTh_frame ci g (hg _)
     · exact hy
@@ -435,7 +438,7 @@ theorem PI.enqFlow (h : PI none fl T C s) (a : Nat) (x : Actor) (hx : s.actor a 
     refine h2.setActor_clear _ (fun _ => rfl) (fun _ => rfl) (fun _ => rfl) ?_
     intro _ st; exact not_pend_none st
   | false =>
-    let Q : BSt → Prop := fun y => PI (some a) fl T C y ∧ y.now = s.now ∧ y.actor a = some x1 ∧
+    let Q : BSt → Prop := fun y => PI c (some a) fl T C y ∧ y.now = s.now ∧ y.actor a = some x1 ∧
       ∀ i, chain (y.th i) = chain (s1.th i)
     have hQ2 : Q s2 := ⟨h2, by rw [hnow2, hnow1], by rw [hact2]; exact hx1, hfail2 rfl⟩
     have hQb : ∀ y g, Q y → (∀ t, ThEq t (g t)) → Q (if isLogKind st.kind = true then y.setTh ci g else y) := by
@@ -443,7 +446,7 @@ theorem PI.enqFlow (h : PI none fl T C s) (a : Nat) (x : Actor) (hx : s.actor a 
       · exact ⟨hy.1.setTh_frame ci g (hg _), hy.2.1, hy.2.2.1,
           fun i => by rw [chain_setTh_frame y ci g (hg _) i]; exact hy.2.2.2 i⟩
       · exact hy
-    have hretry : ∀ y, Q y → PI none fl T C (y.setActor a (fun x => { x with pend := .retry st cont })) := by
+    have hretry : ∀ y, Q y → PI c none fl T C (y.setActor a (fun x => { x with pend := .retry st cont })) := by
       intro y hy
       refine hy.1.setActor a _ (fun _ => rfl) (fun _ => rfl) (fun _ => rfl)
         (fun b hne _ hh => hne (Option.some.inj hh)) ?_
@@ -458,27 +461,27 @@ theorem PI.enqFlow (h : PI none fl T C s) (a : Nat) (x : Actor) (hx : s.actor a 
       refine ⟨by rw [hy.2.1]; exact hts, hsz, fun i hi => ?_⟩
       rw [hc1] at hi; cases hi
       rw [hy.2.2.2]; exact hfit1
-    have hnone : ∀ y, Q y → PI none fl T C (y.setActor a (fun x => { x with pend := .none })) := by
+    have hnone : ∀ y, Q y → PI c none fl T C (y.setActor a (fun x => { x with pend := .none })) := by
       intro y hy
       refine hy.1.setActor_clear _ (fun _ => rfl) (fun _ => rfl) (fun _ => rfl) ?_
       intro _ st; exact not_pend_none st
     simp only [Bool.false_eq_true, if_false]
     split
     · split
-      · exact hnone _ (hQb _ _ hQ2 (fun t => ⟨rfl, rfl, rfl, rfl, rfl, rfl, rfl⟩))
-      · exact hretry _ (hQb _ _ hQ2 (fun t => ⟨rfl, rfl, rfl, rfl, rfl, rfl, rfl⟩))
+      · exact hnone _ (hQb _ _ hQ2 (fun t => ⟨rfl, rfl, rfl, rfl, rfl, rfl, rfl, .inl rfl⟩))
+      · exact hretry _ (hQb _ _ hQ2 (fun t => ⟨rfl, rfl, rfl, rfl, rfl, rfl, rfl, .inl rfl⟩))
     · apply hretry
       split
-      · exact hQb _ _ hQ2 (fun t => ⟨rfl, rfl, rfl, rfl, rfl, rfl, rfl⟩)
+      · exact hQb _ _ hQ2 (fun t => ⟨rfl, rfl, rfl, rfl, rfl, rfl, rfl, .inl rfl⟩)
       · exact hQ2
 
 theorem stmtSize_pos (c : Cfg) (hc : 0 < c.hdr) (k : Kind) (id len : Nat) (dyn : Bool) (gid : Nat) :
     0 < stmtSize c k id len dyn gid := by
   cases k <;> simp only [stmtSize] <;> omega
 
-theorem PI.frontCall (h : PI none fl T C s) (a : Nat) (x : Actor) (hx : s.actor a = some x) (lgi : Nat) (kind : Kind)
+theorem PI.frontCall (h : PI c none fl T C s) (a : Nat) (x : Actor) (hx : s.actor a = some x) (lgi : Nat) (kind : Kind)
     (lvl len cont : Nat) (dyn : Bool) (id : Nat) (named : Bool) :
-    PI none fl T C (frontCall s a lgi kind lvl len cont dyn id named).1 := by
+    PI c none fl T C (frontCall s a lgi kind lvl len cont dyn id named).1 := by
   unfold Backend.frontCall
   simp only
   have hsz := stmtSize_pos s.cfg h.hdr kind id len dyn (s.lgOf lgi).gid
@@ -492,7 +495,7 @@ theorem PI.frontCall (h : PI none fl T C s) (a : Nat) (x : Actor) (hx : s.actor 
     · cases hc
   · exact h.enqFlow a x hx _ cont true true (Nat.le_refl _) hsz (fun i _ r hr => h.leNow i r hr)
 
-theorem PI.resume (h : PI none fl T C s) (a : Nat) : PI none fl T C (resume s a).1 := by
+theorem PI.resume (h : PI c none fl T C s) (a : Nat) : PI c none fl T C (resume s a).1 := by
   unfold Backend.resume
   cases hx : s.actor a with
   | none => exact h
@@ -523,8 +526,8 @@ theorem idleActor_some {s : BSt} {a : Nat} (h : idleActor s a = true) : ∃ x, s
   | none => rw [hx] at h; cases h
   | some x => exact ⟨x, rfl⟩
 
-theorem PI.withLogger (h : PI none fl T C s) (a g : Nat) (k : Nat → BSt × String)
-    (hk : ∀ lgi x, s.actor a = some x → PI none fl T C (k lgi).1) : PI none fl T C (withLogger s a g k).1 := by
+theorem PI.withLogger (h : PI c none fl T C s) (a g : Nat) (k : Nat → BSt × String)
+    (hk : ∀ lgi x, s.actor a = some x → PI c none fl T C (k lgi).1) : PI c none fl T C (withLogger s a g k).1 := by
   unfold Backend.withLogger
   split
   · rename_i lgi _ hidle
@@ -542,8 +545,8 @@ theorem core_reapSinks (s : BSt) (l : List Nat) : core (reapSinks s l) = core s 
     split <;> rfl
 
 /-- a thread exits: its context is marked invalid (no live actor refers to it any more) -/
-theorem PI.invalidate (h : PI ex fl T C s) (i : Nat) (hno : ∀ b y, s.actor b = some y → y.ctx ≠ some i) :
-    PI ex fl T C (s.setTh i (fun t => { t with valid := false })) := by
+theorem PI.invalidate (h : PI c ex fl T C s) (i : Nat) (hno : ∀ b y, s.actor b = some y → y.ctx ≠ some i) :
+    PI c ex fl T C (s.setTh i (fun t => { t with valid := false })) := by
   have hcases : ∀ j, (s.setTh i (fun t => { t with valid := false })).th j = s.th j ∨
       (j = i ∧ (s.setTh i (fun t => { t with valid := false })).th j = { s.th i with valid := false }) := by
     intro j; rcases th_setTh_cases s i j (fun t => { t with valid := false }) with h1 | ⟨h1, _, h2⟩
@@ -563,7 +566,7 @@ theorem PI.invalidate (h : PI ex fl T C s) (i : Nat) (hno : ∀ b y, s.actor b =
     qc := fun j => by
       rcases hcases j with h1 | ⟨rfl, h1⟩
       · rw [h1]; exact h.qc j
-      · rw [h1]; exact ⟨(h.qc j).wpos, (h.qc j).sum, (h.qc j).pos⟩
+      · rw [h1]; exact ⟨(h.qc j).wpos, (h.qc j).sum, (h.qc j).pos, (h.qc j).wc⟩
     reg := fun j => by rw [hch]; exact h.reg j
     bufCache := fun j => by rw [hbuf]; exact h.bufCache j
     ctxLt := fun b y j hy hj => by rw [length_setTh]; exact h.ctxLt b y j hy hj
@@ -576,8 +579,8 @@ theorem PI.invalidate (h : PI ex fl T C s) (i : Nat) (hno : ∀ b y, s.actor b =
     pend := fun b y r hy hb hpd => by
       obtain ⟨p1, p2, p3⟩ := h.pend b y r hy hb hpd
       exact ⟨p1, p2, fun j hj => by rw [hch]; exact p3 j hj⟩
-    ord := fun hp => by
-      have o := h.ord (fun j r hr => hp j r (by rw [hacc]; exact hr))
+    ord := fun hg0 hr0 hp => by
+      have o := h.ord hg0 hr0 (fun j r hr => hp j r (by rw [hacc]; exact hr))
       exact {
         popSorted := o.popSorted
         above := fun p hpp j hj => by rw [hch]; exact o.above p hpp j hj
@@ -585,7 +588,7 @@ theorem PI.invalidate (h : PI ex fl T C s) (i : Nat) (hno : ∀ b y, s.actor b =
         bufFloor := fun j => by rw [hbuf]; exact o.bufFloor j
         late := fun j hj hT => by rw [hbuf, hq]; exact o.late j hj hT } }
 
-theorem PI.applyFront (h : PI none fl T C s) (f : FOp) : PI none fl T C (applyFront s f).1 := by
+theorem PI.applyFront (h : PI c none fl T C s) (f : FOp) : PI c none fl T C (applyFront s f).1 := by
   cases f with
   | tick dt => exact h.tick dt
   | tstart a =>
@@ -707,21 +710,26 @@ theorem PI.applyFront (h : PI none fl T C s) (f : FOp) : PI none fl T C (applyFr
     exact h.frame (by rw [core_reapSinks]; rfl)
   | query => exact h
 
-theorem PI.foldFront (ops : List FOp) (e : BSt → FOp → Ev) (s1 : BSt) (h1 : PI none fl T C s1) :
-    PI none fl T C (ops.foldl (fun s f => (Backend.applyFront s f).1.emit (e s f)) s1) := by
+theorem PI.foldFront (ops : List FOp) (skip : FOp → Bool) (e : BSt → FOp → Ev) (s1 : BSt) (h1 : PI c none fl T C s1) :
+    PI c none fl T C (ops.foldl (fun s f => (if skip f then (s, "noop") else Backend.applyFront s f).1.emit (e s f)) s1) := by
   induction ops generalizing s1 with
   | nil => exact h1
   | cons f fs ih =>
     rw [List.foldl_cons]
-    exact ih _ ((h1.applyFront f).frame rfl)
+    apply ih
+    split
+    · exact h1.frame rfl
+    · exact (h1.applyFront f).frame rfl
 
 /-- the injection runner of a poll is a sequence of frontend operations -/
-theorem PI.runInj (h : PI none fl T C s) (table : List (Nat × Nat × List FOp)) (site : Nat) :
-    PI none fl T C (runInj table s site) := by
+theorem PI.runInj (h : PI c none fl T C s) (table : List (Nat × Nat × List FOp)) (site : Nat) :
+    PI c none fl T C (runInj table s site) := by
   unfold Backend.runInj
   simp only
   split
   · exact h.frame rfl
-  · exact PI.foldFront _ (fun s f => Ev.inj site _ f.show (Backend.applyFront s f).2) _ (h.frame rfl)
+  · exact PI.foldFront _ (fun f => decide (site = 9) && f.needsManagerLock)
+      (fun s f => Ev.inj site _ f.show (if (decide (site = 9) && f.needsManagerLock) = true then (s, "noop")
+        else Backend.applyFront s f).2) _ (h.frame rfl)
 
 end Backend.PB
